@@ -111,6 +111,10 @@ pub struct BM25Index<T: Tokenizer + Clone> {
     /// Maps document IDs to their token counts
     doc_tokens: DashMap<u64, usize>,
 
+    /// Ids removed with a text that did not cover their indexed tokens: their
+    /// leftover posting entries must be swept before the id is indexed again.
+    stale_ids: DashMap<u64, ()>,
+
     /// Buckets store information about where posting entries are stored and their current state
     buckets: DashMap<u32, Bucket>,
 
@@ -399,6 +403,7 @@ where
             tokenizer,
             config: config.clone(),
             doc_tokens: DashMap::new(),
+            stale_ids: DashMap::new(),
             postings: DashMap::new(),
             buckets: DashMap::from_iter([(0, Bucket::default())]),
             metadata: RwLock::new(BM25Metadata {
@@ -465,6 +470,7 @@ where
             tokenizer,
             config: index.metadata.config.clone(),
             doc_tokens: DashMap::new(),
+            stale_ids: DashMap::new(),
             postings: DashMap::new(),
             buckets: DashMap::from_iter([(0, Bucket::default())]),
             metadata: RwLock::new(index.metadata),
@@ -809,6 +815,16 @@ where
                     .fetch_add(tokens as u64, Ordering::Relaxed);
                 anda_db_utils::verif_point!("bm25.insert.doc_published");
 
+                // A previous `remove` with non-original text left posting
+                // entries of this id behind. They were invisible only while
+                // the id was absent, so sweep them before adding the new
+                // ones. The id is already published above, which makes this
+                // insert its only owner (a concurrent insert of the same id
+                // fails with `AlreadyExists`).
+                if self.stale_ids.remove(&id).is_some() {
+                    self.sweep_postings(&BTreeSet::from([id]));
+                }
+
                 // Update inverted index
                 for (token, freq) in token_freqs {
                     match self.postings.entry(token.clone()) {
@@ -982,6 +998,7 @@ where
         let mut buckets_to_update: FxHashMap<u32, FxHashMap<String, usize>> = FxHashMap::default();
         // Remove from inverted index
         let mut maybe_empty_tokens: Vec<String> = Vec::new();
+        let mut removed_freqs = 0usize;
         for (token, _) in token_freqs {
             if let Some(mut posting) = self.postings.get_mut(&token) {
                 // Remove every entry for this document. Duplicates can exist
@@ -994,6 +1011,7 @@ where
                 if removed_vals.is_empty() {
                     continue;
                 }
+                removed_freqs += removed_vals.iter().map(|val| val.1).sum::<usize>();
 
                 let size_decrease = if posting.1.is_empty() {
                     maybe_empty_tokens.push(token.clone());
@@ -1068,6 +1086,12 @@ where
             {
                 bucket.mark_dirty();
             }
+        }
+
+        if removed_tokens.is_some_and(|tokens| tokens != removed_freqs) {
+            // `text` did not account for every token the document was indexed
+            // with; remember the id so a re-insert sweeps the leftovers.
+            self.stale_ids.insert(id, ());
         }
 
         if was_present {
@@ -1159,6 +1183,24 @@ where
                 .fetch_sub(removed_tokens, Ordering::Relaxed);
         }
 
+        let purged_postings = self.sweep_postings(ids);
+
+        if removed_docs > 0 || purged_postings {
+            self.update_metadata(|m| {
+                m.stats.version += 1;
+                m.stats.last_deleted = now_ms;
+                m.stats.delete_count += removed_docs as u64;
+            });
+        }
+
+        removed_docs
+    }
+
+    /// Drops every posting entry of `ids` and fixes the bucket bookkeeping
+    /// (phases 2-6 of [`purge_ids`](Self::purge_ids)); `doc_tokens` is left
+    /// alone. The caller holds the mutation gate. Returns whether anything
+    /// was swept.
+    fn sweep_postings(&self, ids: &BTreeSet<u64>) -> bool {
         // Phase 2: sweep every posting list once, collecting bucket updates
         // instead of applying them, so no `postings` shard guard is held while
         // the `buckets` map is touched.
@@ -1260,15 +1302,7 @@ where
             }
         }
 
-        if removed_docs > 0 || purged_postings {
-            self.update_metadata(|m| {
-                m.stats.version += 1;
-                m.stats.last_deleted = now_ms;
-                m.stats.delete_count += removed_docs as u64;
-            });
-        }
-
-        removed_docs
+        purged_postings
     }
 
     /// Searches the index and returns the highest-scoring documents.
